@@ -6,7 +6,6 @@ insertion order of atoms and bonds (the rebuilt molecule is built in another ins
 atom sets, neighbour tuples as sets.  An exception raised while computing a view is part of the value (`('EXC', class name)`):
 `brutto` of a molecule with an undefined hydrogen count raises TypeError on both sides.
 """
-from bounded.domains import rebuild as _rebuild
 
 
 # ---------------------------------------------------------------------------------------------------------------------------
@@ -194,10 +193,45 @@ def carry_stereo(m, r):
         r._bonds[i][j]._stereo = b.stereo ^ flip
 
 
+def rebuild_ordered(m):
+    """fresh container through the public add_atom/add_bond in an order that reproduces the insertion order of the atoms and of every
+    neighbour dict (a linear extension of the per-atom orders; it exists because every adjacency entry was appended at some time).
+    Tie-breaking inside the library (ring-closure placement in SMILES, choice among equally small rings) follows insertion order, so
+    only an order-preserving rebuild reports the same spelling."""
+    from chython.containers import MoleculeContainer
+    from chython.containers.bonds import Bond
+    new = MoleculeContainer()
+    for n, a in m._atoms.items():
+        new.add_atom(type(a)(a.isotope, charge=a.charge, is_radical=a.is_radical, x=a.x, y=a.y,
+                             implicit_hydrogens=a.implicit_hydrogens), n, _skip_calculation=True)
+    lists = {n: list(mb) for n, mb in m._bonds.items()}
+    ptr = dict.fromkeys(lists, 0)
+    todo = sum(len(v) for v in lists.values()) // 2
+    while todo:
+        progress = False
+        for n, ls in lists.items():
+            while ptr[n] < len(ls):
+                k = ls[ptr[n]]
+                lk = lists[k]
+                if ptr[k] < len(lk) and lk[ptr[k]] == n:
+                    new.add_bond(n, k, Bond(m._bonds[n][k].order), _skip_calculation=True)
+                    ptr[n] += 1
+                    ptr[k] += 1
+                    todo -= 1
+                    progress = True
+                else:
+                    break
+        if not progress:
+            raise AssertionError('o13_views.rebuild_ordered: neighbour orders have no linear extension (harness assumption broken)')
+    new.calc_labels()
+    new._changed = None
+    return new
+
+
 def rebuilt(m):
-    """fresh container through add_atom/add_bond with the same atoms, bonds, hydrogen counts and (carried) stereo labels.
+    """independent rebuild with the same atoms, bonds, hydrogen counts and (carried) stereo labels.
     Returns (molecule, {atom: hydrogen count the fresh molecule computes by itself})"""
-    r = _rebuild(m, None, keep_stereo=False)
+    r = rebuild_ordered(m)
     calc = {}
     keep = {n: a.implicit_hydrogens for n, a in r._atoms.items()}
     for n in r._atoms:
